@@ -229,7 +229,7 @@ func runE2E(o *corr.Out) {
 			o.OracleOK("error-after-closesend")
 		}
 	}
-	// regression for fix 56786c9 (DESIGN §9-13): ManualFlush with an unflushed message must not mask the
+	// regression for fix 5e78564 (DESIGN §9-13): ManualFlush with an unflushed message must not mask the
 	// handler's error as end-of-stream (Props.C10.handler_error_reaches_client holds for every `u`)
 	{
 		sc := base("script", "noread", 0, "regress:manualflush")
